@@ -82,6 +82,14 @@ KINDS = {
     'err_strict': ('select a1 strict left join B on a2 == b1', {'join': True}),
     'err_nonconst_group': ('select a1, count(*) group by a2', {}),
     'ragged': ('select a1, a3', {'ragged': True}),
+    'agg_float': ('select MIN(a1), MAX(a1), SUM(a1)', {'floats': True}),
+    'agg_float_group': ('select a2, AVG(a1), MEDIAN(a1) group by a2', {'floats': True}),
+    'err_agg_nonnumeric': ('select MAX(a1), SUM(a1)', {'poison': True}),
+    'order_nr': ('select NR, a1 order by a1', {}),
+    'update_multi': ('update set a1 = a2, a2 = a1', {}),
+    'like_many': ("select a1 where like(a2, 'v_') and like(a1, '1%')", {}),
+    'except_header': ('select * except a.name', {'header': True}),
+    'join_header': ('select a.id, b.jval join B on a.name == b.key', {'join': True, 'header': True}),
 }
 KIND_NAMES = sorted(KINDS)
 THREAD_KINDS = [k for k in KIND_NAMES]
@@ -98,6 +106,9 @@ def gen_op(rng, kind=None, api=None, max_rows=6, pool=40):
     nrows = rng.choice([0, 1, 2, 3, 4, 4, max_rows]) if max_rows > 4 else rng.choice([1, 2, 3, 4, 4])
     rows = workload.gen_table(rng, nrows, 3, ragged=bool(opt.get('ragged')))
     op = {'kind': kind, 'query': query, 'rows': rows, 'api': api}
+    if opt.get('floats'):
+        for r in rows:
+            r[0] = rng.choice(['1', '2.5', '3', '0.5', '10', '2'])
     if opt.get('poison') and rows:
         rows[rng.randrange(len(rows))][0] = 'bad'
     if opt.get('join'):
@@ -363,7 +374,7 @@ def generate(rng, tier, idx):
     same_family = rng.random() < 0.35
     if same_family:
         # bias towards pairs that share a mechanism (aggregation / unnest / like / join)
-        fam = rng.choice([['agg_group', 'agg_plain', 'agg_median', 'agg_any', 'join_agg'], ['unnest', 'unnest2', 'err_two_unnest'],
+        fam = rng.choice([['agg_group', 'agg_plain', 'agg_median', 'agg_any', 'join_agg', 'agg_float', 'agg_float_group', 'err_agg_nonnumeric'], ['unnest', 'unnest2', 'err_two_unnest'],
                           ['like', 'like2', 'where'], ['init_code', 'uses_foo', 'init_import', 'uses_math'],
                           ['err_runtime', 'agg_group', 'unnest', 'err_agg_misuse'], ['update', 'update_nu', 'distinct', 'top', 'limit_distinct']])
         kinds = rng.sample(fam, min(n, len(fam)))
